@@ -116,6 +116,14 @@ fn cmd_hashes(args: &[String]) -> i32 {
         threads,
         verif_dir: ".".into(),
     };
+    // same run semantics as `check`: listed findings are walked past
+    let ff = load_findings(&format!("{}/known_findings.json", arg_val(args, "--dir").unwrap_or("/verif".into())));
+    let _ = runner::TOLERATE.set(
+        ff.known
+            .iter()
+            .map(|k| trace::Tolerated { property: k.property.clone(), class: k.class.clone(), facts: k.facts.clone() })
+            .collect(),
+    );
     for s in run_batch(&cfg, usize::MAX).0 {
         println!("{} {} {} {}", s.world, s.run, hex(s.out.loghash), s.out.violations.len());
     }
